@@ -119,7 +119,7 @@ Definition owned_of (p : pc) : option Z :=
 Definition qos_of (p : pc) : option Z :=
   match p with
   | PM_flags _ q | PM_op _ q | PS_flags q | PS_pend q | PS_wake q | PC_set q | PR_rmw q | PR_flags q | PR_pend q | PR_wake q
-  | PA_rmw q | PA_role q => Some q
+  | PA_rmw q | PA_role q | PA_inst q => Some q
   | _ => None
   end.
 Definition latched_pc (p : pc) : Z := match p with PW_call _ x => x | _ => 0 end.
@@ -179,6 +179,22 @@ Proof.
     + unfold free; cbn; auto.
     + apply data_ok_init.
   - intros t. unfold thread_inv, init_state; cbn. repeat split; intros; try discriminate; try contradiction.
+Qed.
+
+Lemma Inv_init_inactive c : Inv c init_inactive.
+Proof.
+  split.
+  - exists (mk 0 0 0 0 0 0 0 0 0 4095 0 3). unfold init_inactive.
+    constructor; cbn [st pend cancelled installed rootq pcs token wakers rwakers latched running merged dropped delivered];
+      unfold mk; cbn [f_tr f_em f_pb f_hi f_role f_enq f_d]; try lia; try congruence; try reflexivity.
+    + unfold wfr; cbn [f_owner f_tr f_enq f_mq f_ov f_role f_em f_d f_pb f_wq f_ib f_hi]; repeat split; lia.
+    + right. right. reflexivity.
+    + split; [discriminate | congruence].
+    + unfold free; cbn; auto.
+    + constructor.
+    + constructor.
+    + apply data_ok_init.
+  - intros t. unfold thread_inv, init_inactive; cbn. repeat split; intros; try discriminate; try contradiction.
 Qed.
 
 (* ---------------------------------------------------------------- frame lemmas *)
@@ -605,6 +621,18 @@ Lemma hi8_add a : a mod 8 = 0 -> (a + 8) mod 8 = 0.
 Proof. intros H. replace (a + 8) with (a + 1 * 8) by lia. rewrite Z.mod_add by lia. exact H. Qed.
 Lemma hi8_sub a : a mod 8 = 0 -> (a - 8) mod 8 = 0.
 Proof. intros H. replace (a - 8) with (a + (-1) * 8) by lia. rewrite Z.mod_add by lia. exact H. Qed.
+Lemma hi_ok_add a : hi_ok a -> hi_ok (a + 8).
+Proof. unfold hi_ok. replace (a + 8) with (a + 1 * 8) by lia. rewrite Z.mod_add by lia. auto. Qed.
+Lemma hi_ok_sub a : hi_ok a -> hi_ok (a - 8).
+Proof. unfold hi_ok. replace (a - 8) with (a + (-1) * 8) by lia. rewrite Z.mod_add by lia. auto. Qed.
+Lemma hi_ok_0 : hi_ok 0. Proof. left. reflexivity. Qed.
+Lemma hi_ok_8 : hi_ok 8. Proof. left. reflexivity. Qed.
+(* parity of the suspend field = the NEEDS_ACTIVATION bit *)
+Lemma mod2_of_mod8 a : a mod 2 = (a mod 8) mod 2.
+Proof.
+  rewrite (Z.div_mod a 8) at 1 by lia. replace (8 * (a / 8) + a mod 8) with (a mod 8 + (4 * (a / 8)) * 2) by lia.
+  rewrite Z.mod_add by lia. reflexivity.
+Qed.
 Lemma hi8_even a : a mod 8 = 0 -> (a mod 2 =? 1) = false.
 Proof.
   intros H. apply Z.mod_divide in H; [|lia]. destruct H as [k ->]. replace (k * 8) with (0 + (k * 4) * 2) by lia.
@@ -620,7 +648,7 @@ Lemma ginv_other_word k s s' r r' t p :
   st s' = enc r' -> pend s' = pend s -> cancelled s' = cancelled s -> rootq s' = rootq s -> pcs s' = upd (pcs s) t p ->
   token s' = token s -> latched s' = latched s -> running s' = running s -> merged s' = merged s ->
   dropped s' = dropped s -> delivered s' = delivered s -> NoDup (wakers s') -> NoDup (rwakers s') ->
-  wfr r' -> f_tr r' = 0 -> f_em r' = 0 -> f_pb r' = 0 -> f_hi r' mod 8 = 0 -> f_role r' < 2 ->
+  wfr r' -> f_tr r' = 0 -> f_em r' = 0 -> f_pb r' = 0 -> hi_ok (f_hi r') -> f_role r' < 2 ->
   f_enq r' = f_enq r -> f_owner r' = f_owner r -> f_ib r' = f_ib r -> f_wq r' = f_wq r ->
   (pend s <> 0 -> cancelled s = false -> token s <> None \/ wakers s' <> [] \/ rwakers s' <> [] \/ 0 < f_hi r') ->
   (forall w, token s = Some (Some w) -> examined_pc (pcs s w) = true -> pend s <> 0 -> cancelled s = false ->
@@ -667,7 +695,7 @@ Proof.
       apply (ginv_other_word _ s _ r _ t Idle G K); try reflexivity; try assumption;
         unfold set_hi, mk; cbn [f_tr f_em f_pb f_hi f_role f_enq f_owner f_ib f_wq f_d]; auto.
       * apply set_hi_wf; [assumption|lia].
-      * apply hi8_add. assumption.
+      * apply hi_ok_add. assumption.
       * intros _ _. right. right. right. lia.
       * intros w _ _ _ _ _ X. lia.
     + apply threads_other_word; rewrite ?Hpc; auto. discriminate.
@@ -693,6 +721,9 @@ Proof.
     cbn [In]. split; [intros [E|E]; [congruence|exact E] | auto].
 Qed.
 
+Lemma par_sub8 a : ((a - 8) mod 2 =? 1) = (a mod 2 =? 1).
+Proof. replace (a - 8) with (a + (-4) * 2) by lia. rewrite Z.mod_add by lia. reflexivity. Qed.
+
 Lemma step_rrmw c s t q s' : Inv c s -> pcs s t = PR_rmw q -> gstep c s t = Some s' -> Inv c s'.
 Proof.
   intros I Hpc B. unfold gstep in B. rewrite Hpc in B.
@@ -700,11 +731,26 @@ Proof.
   destruct (T t) as (T1 & T2 & T3 & T4 & T5 & T6). rewrite Hpc in T1, T2, T3, T4, T5, T6. pose proof (T5 q eq_refl) as Q.
   pose proof G as G'. destruct G'. pose proof g_wf0 as W. unfold wfr in W.
   rewrite g_enc0 in B. rewrite (resume_src_fields r g_wf0 g_hi0) in B.
+  destruct ((f_hi r =? 9) || (f_hi r =? 3)) eqn:Act.
+  { (* the resume that activates: NEEDS_ACTIVATION cleared, one suspend count left; on to the activation finalizer *)
+    set (r8 := set_hi r 8) in *.
+    assert (W8 : wfr r8) by (apply set_hi_wf; [assumption|lia]).
+    rewrite (xor_needs_activation r r8 g_wf0 W8) in B.
+    assert (P1 : (f_hi r mod 2 =? 1) = true).
+    { apply orb_true_iff in Act. destruct Act as [E|E]; apply Z.eqb_eq in E; rewrite E; reflexivity. }
+    assert (P2 : (f_hi r8 mod 2 =? 1) = false) by reflexivity.
+    rewrite P1, P2 in B. cbn [xorb] in B. injection B as <-. split.
+    - exists r8.
+      apply (ginv_other_word _ s _ r _ t (PA_role q) G K); try reflexivity; try assumption; sproj;
+        try (subst r8; unfold set_hi, mk; cbn [f_tr f_em f_pb f_hi f_role f_enq f_owner f_ib f_wq f_d]; auto; fail).
+      + apply hi_ok_8.
+      + intros _ _. right. right. right. subst r8. cbn. lia.
+      + intros w _ _ _ _ _ X. subst r8. cbn in X. lia.
+    - apply threads_other_word; rewrite ?Hpc; auto; try (intros q0 E; injection E as <-; exact Q). }
   destruct (Z.ltb_spec (f_hi r) 8) as [H|H].
   - injection B as <-. apply Inv_other_move; rewrite ?Hpc; auto. discriminate.
   - cbv zeta in B. set (r2 := set_hi r (f_hi r - 8)) in *.
     assert (W2 : wfr r2) by (apply set_hi_wf; [assumption|lia]).
-    assert (H2 : f_hi r2 mod 8 = 0) by (subst r2; unfold set_hi, mk; cbn [f_hi]; apply hi8_sub; assumption).
     (* where the lock stands *)
     assert (LockShape : f_owner r = 0 /\ f_ib r = 0 /\ f_wq r = 4095 \/
                         exists w, token s = Some (Some w) /\ locked_pc (pcs s w) = true /\ held r w /\ valid_tid w).
@@ -720,7 +766,7 @@ Proof.
       assert (W3 : wfr r3) by (subst r3; apply wfr_mk; lia).
       rewrite (xor_needs_activation r r3 g_wf0 W3) in B.
       assert (E1 : f_hi r3 = f_hi r - 8) by reflexivity.
-      rewrite E1, (hi8_even _ g_hi0), (hi8_even _ (hi8_sub _ g_hi0)) in B. cbn [xorb] in B.
+      rewrite E1, par_sub8, xorb_nilpotent in B.
       unfold suspended_word in B. rewrite (is_suspended_f r3 W3), E1, RB3 in B. cbn [Z.ltb Z.compare] in B.
       rewrite (xor_in_barrier r r3 g_wf0 W3) in B.
       assert (E2 : f_ib r3 = f_ib r) by reflexivity. rewrite E2, xorb_nilpotent in B.
@@ -737,6 +783,7 @@ Proof.
         apply (ginv_other_word _ s _ r _ t (PR_flags q) G K); try reflexivity; try assumption; sproj;
           try (subst r3; unfold mk; cbn [f_tr f_em f_pb f_hi f_role f_enq f_owner f_ib f_wq f_d]; auto; fail).
         -- constructor; [|assumption]. intros Hin. apply T3 in Hin. discriminate.
+        -- subst r3; unfold mk; cbn [f_hi]. apply hi_ok_sub. assumption.
         -- intros _ _. right. right. left. discriminate.
         -- intros w Tk Ex. specialize (NoLock w Tk). destruct (pcs s w); cbn in Ex, NoLock; discriminate.
       * apply threads_join_rwakers; rewrite ?Hpc; auto; try (intros q0 E; injection E as <-; exact Q).
@@ -747,7 +794,7 @@ Proof.
       assert (E2 : f_ib r4 = f_ib r) by reflexivity.
       assert (E3 : f_wq r4 = f_wq r) by reflexivity.
       rewrite (xor_needs_activation r r4 g_wf0 W4) in B.
-      rewrite E1, (hi8_even _ g_hi0), (hi8_even _ (hi8_sub _ g_hi0)) in B. cbn [xorb] in B.
+      rewrite E1, par_sub8, xorb_nilpotent in B.
       unfold suspended_word in B. rewrite (is_suspended_f r4 W4), E1 in B.
       rewrite (xor_in_barrier r r4 g_wf0 W4) in B. rewrite E2, xorb_nilpotent in B.
       rewrite (runnable_f r4 W4) in B. unfold runnable_b in B. rewrite E3, E2, E1 in B.
@@ -762,6 +809,7 @@ Proof.
       * exists r4.
         apply (ginv_other_word _ s _ r _ t Idle G K); try reflexivity; try assumption; sproj;
           try (subst r4 r2; unfold dirtied, set_hi, mk; cbn [f_tr f_em f_pb f_hi f_role f_enq f_owner f_ib f_wq f_d]; auto; fail).
+        -- subst r4 r2; unfold dirtied, set_hi, mk; cbn [f_hi]. apply hi_ok_sub. assumption.
         -- intros Hp Hc. rewrite E1.
            destruct (Z.ltb_spec 0 (f_hi r - 8)) as [S|S]; [right; right; right; exact S|]. left.
            destruct LockShape as [(O & Ib & Wq)|(w & Tk & _)]; [|rewrite Tk; discriminate].
@@ -899,7 +947,7 @@ Proof.
       set (r' := mk t 0 1 (f_mq r) 0 (f_role r) 0 0 0 4096 1 0) in *.
       split.
       * exists r'. subst r'. constructor; sproj; rewrite ?K; unfold mk; cbn [f_tr f_em f_pb f_hi f_role f_enq f_d];
-          try assumption; try lia; try reflexivity.
+          try assumption; try lia; try reflexivity; try exact hi_ok_0.
         -- apply wfr_mk; unfold valid_tid in Vt; lia.
         -- split; [discriminate | reflexivity].
         -- rewrite upd_same. cbn [locked_pc]. split; [exact Vt | unfold held; cbn; auto].
@@ -922,7 +970,7 @@ Proof.
     set (r' := mk (f_owner r) (f_tr r) (1 - f_enq r) (f_mq r) (f_ov r) (f_role r) (f_em r) (f_d r) (f_pb r) (f_wq r) (f_ib r) (f_hi r)) in *.
     split.
     + exists r'. subst r'. constructor; sproj; unfold mk; cbn [f_tr f_em f_pb f_hi f_role f_enq f_d];
-        try assumption; try lia; try reflexivity.
+        try assumption; try lia; try reflexivity; try exact hi_ok_0.
       * apply wfr_mk; lia.
       * rewrite En. split; [discriminate | congruence].
       * unfold free; cbn; auto.
@@ -1028,7 +1076,7 @@ Proof.
   destruct (T t) as (_ & _ & _ & _ & _ & T6). pose proof (T6 _ _ Hpc) as NZ.
   destruct G. rewrite K in *. rewrite Hpc in *. cbn [locked_pc latched_pc running_pc] in *.
   split.
-  - exists r. constructor; sproj; rewrite ?K, ?upd_same; try assumption; try lia; try reflexivity.
+  - exists r. constructor; sproj; rewrite ?K, ?upd_same; try assumption; try lia; try reflexivity; try exact hi_ok_0.
     + intros w E. injection E as <-. rewrite upd_same. intros _. apply (g_dirty0 t); auto. rewrite Hpc. reflexivity.
     + apply data_ok_deliver; [|exact NZ]. rewrite <- g_latched0. exact g_data0.
   - apply (threads_after_holder_step s _ t (PW_incall OWN)); auto; [own_goal | discriminate].
@@ -1042,7 +1090,7 @@ Proof.
   pose proof (holder s t (T t)) as K. rewrite Hpc in K. specialize (K eq_refl).
   destruct G. rewrite K in *. rewrite Hpc in *. cbn [locked_pc latched_pc running_pc] in *.
   split.
-  - exists r. constructor; sproj; rewrite ?K, ?upd_same; try assumption; try lia; try reflexivity.
+  - exists r. constructor; sproj; rewrite ?K, ?upd_same; try assumption; try lia; try reflexivity; try exact hi_ok_0.
     intros w E. injection E as <-. rewrite upd_same. intros _. apply (g_dirty0 t); auto. rewrite Hpc. reflexivity.
   - apply (threads_after_holder_step s _ t (PW_post OWN)); auto; [own_goal | discriminate].
 Qed.
@@ -1075,7 +1123,7 @@ Proof.
       set (r' := mk 0 0 (f_enq r - 1) 0 0 (f_role r) (f_em r) 0 (f_pb r) 4095 0 0) in *.
       split.
       * exists r'. subst r'. constructor; sproj; unfold mk; cbn [f_tr f_em f_pb f_hi f_role f_enq f_d];
-          try assumption; try lia; try reflexivity.
+          try assumption; try lia; try reflexivity; try exact hi_ok_0.
         -- apply wfr_mk; lia.
         -- rewrite En. split; [discriminate | congruence].
         -- unfold free; cbn; auto.
@@ -1088,7 +1136,7 @@ Proof.
     set (r' := mk 0 0 (f_enq r - 1) (f_mq r) 0 (f_role r) (f_em r) (f_d r) (f_pb r) 4095 0 (f_hi r)) in *.
     split.
     + exists r'. subst r'. constructor; sproj; unfold mk; cbn [f_tr f_em f_pb f_hi f_role f_enq f_d];
-        try assumption; try lia; try reflexivity.
+        try assumption; try lia; try reflexivity; try exact hi_ok_0.
       * apply wfr_mk; lia.
       * rewrite En. split; [discriminate | congruence].
       * unfold free; cbn; auto.
@@ -1111,7 +1159,7 @@ Proof.
   destruct Pp as (P1 & P2 & P3 & P4 & P5).
   split.
   - exists r'. subst r'. constructor; sproj; rewrite ?K, ?upd_same, ?P1, ?P3, ?P4; unfold mk; cbn [f_tr f_em f_pb f_hi f_role f_enq f_d];
-      try assumption; try lia; try reflexivity.
+      try assumption; try lia; try reflexivity; try exact hi_ok_0.
     + apply wfr_mk; lia.
     + intros w E. injection E as <-. rewrite upd_same, P2. discriminate.
   - apply (threads_after_holder_step s _ t p'); auto.
@@ -1147,7 +1195,7 @@ Proof.
     cbn [Z.eqb xorb] in B. injection B as <-.
     split.
     + exists r'. subst r'. constructor; sproj; rewrite ?K, ?upd_same; unfold mk; cbn [f_tr f_em f_pb f_hi f_role f_enq f_d];
-        try assumption; try lia; try reflexivity.
+        try assumption; try lia; try reflexivity; try exact hi_ok_0.
       * rewrite He'. split; [discriminate | reflexivity].
       * cbn [locked_pc]. split; [exact Vt | unfold free; cbn; auto].
     + apply (threads_after_holder_step s _ t PS_rootpush); auto; discriminate.
@@ -1156,7 +1204,7 @@ Proof.
     assert (Hh : 0 < f_hi r) by lia.
     split.
     + exists r'. subst r'. constructor; sproj; unfold mk; cbn [f_tr f_em f_pb f_hi f_role f_enq f_d];
-        try assumption; try lia; try reflexivity.
+        try assumption; try lia; try reflexivity; try exact hi_ok_0.
       * rewrite He'. split; [discriminate | congruence].
       * unfold free; cbn; auto.
     + intros u. destruct (Z.eq_dec u t) as [->|N].
@@ -1165,6 +1213,101 @@ Proof.
         split; [|split; [|split; [|split; [|split]]]]; try (intros; discriminate); auto. split; discriminate.
       * apply (thread_other s _ t u N (T u)); sproj; [apply upd_other; exact N | | tauto | tauto].
         rewrite K. split; intros E; [discriminate | injection E as E; congruence].
+Qed.
+
+(* ---------------------------------------------------------------- activation and installation *)
+Lemma Inv_set_installed c s b : Inv c s -> Inv c (set_installed s b).
+Proof.
+  intros [[r G] T]. split; [|exact T]. exists r. destruct G. constructor; sproj; assumption.
+Qed.
+
+Lemma step_winst c s t o s' : Inv c s -> pcs s t = PW_inst o -> gstep c s t = Some s' -> Inv c s'.
+Proof.
+  intros I Hpc B. unfold gstep in B. rewrite Hpc in B. injection B as <-.
+  assert (o = OWN) by (apply (owned_is_OWN c s t); [exact I | rewrite Hpc; reflexivity]). subst o.
+  apply (Inv_holder_move c (set_installed s true) t (PW_susp OWN)); sproj; rewrite ?Hpc; try reflexivity; try discriminate; auto.
+  - apply Inv_set_installed. exact I.
+  - own_goal.
+Qed.
+
+Section HiArith.
+  Local Ltac Zify.zify_post_hook ::= Z.div_mod_to_equations.
+  Lemma hi_inactive_bit a : 0 <= a -> hi_ok a -> ((a / 2) mod 2 =? 1) = (a mod 8 =? 3).
+  Proof.
+    intros P H. unfold hi_ok in H.
+    destruct (Z.eqb_spec ((a / 2) mod 2) 1); destruct (Z.eqb_spec (a mod 8) 3); try reflexivity; exfalso; lia.
+  Qed.
+  Lemma hi_sub2 a : a mod 8 = 3 -> (a - 2) mod 8 = 1.
+  Proof. intros. lia. Qed.
+  Lemma hi_par_sub2 a : ((a - 2) mod 2 =? 1) = (a mod 2 =? 1).
+  Proof. destruct (Z.eqb_spec ((a - 2) mod 2) 1); destruct (Z.eqb_spec (a mod 2) 1); try reflexivity; exfalso; lia. Qed.
+  Lemma hi_3_or_more a : 0 <= a -> a mod 8 = 3 -> a <> 3 -> 11 <= a.
+  Proof. intros. lia. Qed.
+End HiArith.
+
+Lemma step_armw c s t q s' : Inv c s -> pcs s t = PA_rmw q -> gstep c s t = Some s' -> Inv c s'.
+Proof.
+  intros I Hpc B. unfold gstep in B. rewrite Hpc in B.
+  pose proof I as [[r G] T]. pose proof (not_holder s t (T t)) as K. rewrite Hpc in K. specialize (K eq_refl).
+  destruct (T t) as (T1 & T2 & T3 & T4 & T5 & T6). rewrite Hpc in T1, T2, T3, T4, T5, T6. pose proof (T5 q eq_refl) as Q.
+  pose proof G as G'. destruct G'. pose proof g_wf0 as W. unfold wfr in W.
+  rewrite g_enc0 in B. rewrite (activate_fields r g_wf0) in B.
+  assert (Word : forall h p, 0 <= h < 512 -> hi_ok h -> 0 < h -> token_pc p = false -> waker_pc p = false -> rwaker_pc p = false ->
+                 (forall q0, qos_of p = Some q0 -> 0 <= q0 < 8) -> Inv c (set_pc (set_st s (enc (set_hi r h))) t p)).
+  { intros h p Hh Ho Hp P1 P2 P3 P4. split.
+    - exists (set_hi r h).
+      apply (ginv_other_word _ s _ r _ t p G K); try reflexivity; try assumption; sproj;
+        try (unfold set_hi, mk; cbn [f_tr f_em f_pb f_hi f_role f_enq f_owner f_ib f_wq f_d]; auto; fail).
+      + apply set_hi_wf; assumption.
+      + intros w _ _ _ _ _ X. unfold set_hi, mk in X; cbn [f_hi] in X. lia.
+    - apply threads_other_word; rewrite ?Hpc; auto. }
+  destruct (Z.eqb_spec (f_hi r) 3) as [H3|H3].
+  - (* { sc:0 i:1 na:1 } -> { sc:1 }: this thread finalises the activation *)
+    assert (W8 : wfr (set_hi r 8)) by (apply set_hi_wf; [assumption|lia]).
+    rewrite (xor_needs_activation r (set_hi r 8) g_wf0 W8) in B.
+    assert (P1 : (f_hi r mod 2 =? 1) = true) by (rewrite H3; reflexivity).
+    assert (P2 : (f_hi (set_hi r 8) mod 2 =? 1) = false) by reflexivity.
+    rewrite P1, P2 in B. cbn [xorb] in B. injection B as <-.
+    apply Word; try reflexivity; try lia; [apply hi_ok_8|]. intros q0 E. injection E as <-. exact Q.
+  - rewrite (hi_inactive_bit (f_hi r)) in B by (try lia; assumption).
+    destruct (Z.eqb_spec (f_hi r mod 8) 3) as [M3|M3].
+    + (* suspended while inactive: only INACTIVE is cleared; the last resume will activate *)
+      pose proof (hi_3_or_more (f_hi r) ltac:(lia) M3 H3) as H11.
+      assert (W2 : wfr (set_hi r (f_hi r - 2))) by (apply set_hi_wf; [assumption|lia]).
+      rewrite (xor_needs_activation r (set_hi r (f_hi r - 2)) g_wf0 W2) in B.
+      assert (E1 : f_hi (set_hi r (f_hi r - 2)) = f_hi r - 2) by reflexivity.
+      rewrite E1, hi_par_sub2, xorb_nilpotent in B.
+      unfold suspended_word in B. rewrite (is_suspended_f _ W2), E1 in B.
+      assert (S : (0 <? f_hi r - 2) = true) by (apply Z.ltb_lt; lia). rewrite S in B. injection B as <-.
+      apply Word; try reflexivity; try lia; [right; left; apply hi_sub2; exact M3 | discriminate].
+    + (* already active *)
+      injection B as <-. apply Inv_other_move; rewrite ?Hpc; auto. discriminate.
+Qed.
+
+Lemma step_arole c s t q s' : Inv c s -> pcs s t = PA_role q -> gstep c s t = Some s' -> Inv c s'.
+Proof.
+  intros I Hpc B. unfold gstep in B. rewrite Hpc in B.
+  pose proof I as [[r G] T]. pose proof (not_holder s t (T t)) as K. rewrite Hpc in K. specialize (K eq_refl).
+  destruct (T t) as (T1 & T2 & T3 & T4 & T5 & T6). rewrite Hpc in T1, T2, T3, T4, T5, T6. pose proof (T5 q eq_refl) as Q.
+  pose proof G as G'. destruct G'. pose proof g_wf0 as W. unfold wfr in W.
+  assert (Rb : 0 <= role_bits c < 2) by (unfold role_bits; destruct (canon c); lia).
+  rewrite g_enc0 in B. rewrite (inherit_fields r (role_bits c) g_wf0) in B by lia.
+  destruct (Z.eqb_spec (f_role r) (role_bits c)) as [E|E].
+  - injection B as <-. apply Inv_other_move; rewrite ?Hpc; auto; try (intros q0 X; injection X as <-; exact Q).
+  - injection B as <-. split.
+    + exists (set_role r (role_bits c)).
+      apply (ginv_other_word _ s _ r _ t (PA_inst q) G K); try reflexivity; try assumption; sproj;
+        try (unfold set_role, mk; cbn [f_tr f_em f_pb f_hi f_role f_enq f_owner f_ib f_wq f_d]; auto; lia).
+      * apply set_role_wf; [assumption|lia].
+    + apply threads_other_word; rewrite ?Hpc; auto; try (intros q0 X; injection X as <-; exact Q).
+Qed.
+
+Lemma step_ainst c s t q s' : Inv c s -> pcs s t = PA_inst q -> gstep c s t = Some s' -> Inv c s'.
+Proof.
+  intros I Hpc B. unfold gstep in B. rewrite Hpc in B. injection B as <-.
+  destruct I as [IG T]. destruct (T t) as (_ & _ & _ & _ & T5 & _). rewrite Hpc in T5. pose proof (T5 q eq_refl) as Q.
+  apply (Inv_other_move c (set_installed s (installed s || early c)) t (PR_rmw q)); sproj; rewrite ?Hpc; auto;
+    try (intros q0 X; injection X as <-; exact Q). apply Inv_set_installed. split; assumption.
 Qed.
 
 Theorem step_preserves c s a s' : Inv c s -> step c s a s' -> Inv c s'.
@@ -1186,7 +1329,11 @@ Proof.
     + eapply step_rflags; eauto.
     + eapply step_rpend; eauto.
     + eapply step_rwake; eauto.
+    + eapply step_armw; eauto.
+    + eapply step_arole; eauto.
+    + eapply step_ainst; eauto.
     + eapply step_lock; eauto.
+    + eapply step_winst; eauto.
     + eapply step_wsusp; eauto.
     + eapply step_wflags; eauto.
     + eapply step_wpend; eauto.
@@ -1203,7 +1350,7 @@ Qed.
 Theorem Inv_reachable c rb s : 0 <= rb < 2 -> reach c rb s -> Inv c s.
 Proof.
   intros Hrb. apply invariant_lift.
-  - intros s0 ->. apply Inv_init. exact Hrb.
+  - intros s0 [->| ->]; [apply Inv_init; exact Hrb | apply Inv_init_inactive].
   - intros s1 a s2 I H. exact (step_preserves c s1 a s2 I H).
 Qed.
 
@@ -1366,19 +1513,17 @@ Proof.
   unfold gstep. destruct (pcs s t) eqn:Hpc; try contradiction; try (eexists; reflexivity).
   - (* PU_rmw *) destruct (suspend_loop 0 (st s)); eexists; reflexivity.
   - (* PR_rmw *) rewrite g_enc0, (resume_src_fields r g_wf0 g_hi0).
-    destruct (f_hi r <? 8); [eexists; reflexivity|]. cbv zeta.
-    destruct (runnable_b (set_hi r (f_hi r - 8)) && (f_owner r =? 0)).
-    + match goal with |- context [nz ?x] => destruct (nz x) end; [eexists; reflexivity|].
-      match goal with |- context [suspended_word ?x] => destruct (suspended_word x) end; [eexists; reflexivity|].
-      match goal with |- context [if nz ?x then _ else _] => destruct (nz x) end; [eexists; reflexivity|].
-      match goal with |- context [negb ?x] => destruct x end; eexists; reflexivity.
-    + match goal with |- context [nz ?x] => destruct (nz x) end; [eexists; reflexivity|].
-      match goal with |- context [suspended_word ?x] => destruct (suspended_word x) end; [eexists; reflexivity|].
-      match goal with |- context [if nz ?x then _ else _] => destruct (nz x) end; [eexists; reflexivity|].
-      match goal with |- context [negb ?x] => destruct x end; eexists; reflexivity.
+    destruct ((f_hi r =? 9) || (f_hi r =? 3)); [|destruct (f_hi r <? 8); [|cbv zeta; destruct (runnable_b (set_hi r (f_hi r - 8)) && (f_owner r =? 0))]];
+      cbv iota beta;
+      repeat (match goal with |- exists _, (if ?x then _ else _) = _ => destruct x end); eexists; reflexivity.
   - (* PR_wake *) pose proof (T5 q eq_refl) as Q. rewrite g_enc0. unfold ENQUEUED.
     rewrite (wakeup_fields_plain r q 1 1 g_wf0 Q eq_refl). cbv zeta.
     match goal with |- context [if ?x =? ?y then _ else _] => destruct (x =? y) end; eexists; reflexivity.
+  - (* PA_rmw *) rewrite g_enc0, (activate_fields r g_wf0).
+    destruct (f_hi r =? 3); [|destruct ((f_hi r / 2) mod 2 =? 1)]; cbv iota beta;
+      repeat (match goal with |- exists _, (if ?x then _ else _) = _ => destruct x end); eexists; reflexivity.
+  - (* PA_role *) assert (Rb : 0 <= role_bits c < 4) by (unfold role_bits; destruct (canon c); lia).
+    rewrite g_enc0, (inherit_fields r (role_bits c) g_wf0 Rb). destruct (f_role r =? role_bits c); eexists; reflexivity.
   - (* PW_lock *) rewrite g_enc0, (lock_fields r t floor 0 g_wf0 Vt).
     destruct (lock_free r); [destruct ((f_role r mod 2 =? 1) && (floor <? f_mq r))|]; eexists; reflexivity.
   - (* PW_unlock *)
